@@ -29,6 +29,12 @@ enum Order {
 }
 const ORDERS: [Order; 3] = [Order::Asc, Order::Desc, Order::Shuffled];
 
+static ALL_KEYS: std::sync::atomic::AtomicBool = std::sync::atomic::AtomicBool::new(false);
+/// `--all-keys` (thorough tier): every stored key is an argument, at every capacity
+fn all_keys() -> bool {
+    ALL_KEYS.load(std::sync::atomic::Ordering::Relaxed)
+}
+
 fn fills(c: usize) -> Vec<usize> {
     let mut f = vec![0, 1, 2, c / 2, c.saturating_sub(1), c];
     f.retain(|x| *x <= c);
@@ -86,8 +92,17 @@ fn map_family<const C: usize>(cx: &mut Ctx) -> u64 {
     let mut cases = 0u64;
     for f in fills(C) {
         for o in ORDERS {
+            // every stored key for moderate capacities (each slot position matters to code that
+            // scans in blocks or from a cursor); for the large ones the keys around block boundaries
+            // counted from either end, plus the absent ones
             let keys_of_interest: Vec<u16> = {
-                let mut k = vec![0u16, (f / 2) as u16, f.saturating_sub(1) as u16, f as u16, (C + 1) as u16];
+                let mut k: Vec<u16> = if C <= 130 || (all_keys() && C <= 260) {
+                    (0..f as u16).collect()
+                } else {
+                    let near = [0usize, 1, 2, 7, 8, 9, 15, 16, 17, 31, 32, 33, 63, 64, 65];
+                    near.iter().flat_map(|d| [*d, f.wrapping_sub(1).wrapping_sub(*d)]).filter(|x| *x < f).map(|x| x as u16).chain([(f / 2) as u16]).filter(|x| (*x as usize) < f).collect()
+                };
+                k.extend([f as u16, (C + 1) as u16]);
                 k.sort_unstable();
                 k.dedup();
                 k
@@ -173,6 +188,41 @@ fn map_family<const C: usize>(cx: &mut Ctx) -> u64 {
                         md.insert(other, 2);
                     }
                 });
+                // a present key requested twice, among other present keys, in every arrangement of 3 and 4
+                // requests: must panic (never two references to one value); an absent key twice: panic or Nones
+                if C13 & cx.enabled != 0 && f >= 3 {
+                    let others: Vec<u16> = [0u16, (f - 1) as u16, (f / 2) as u16, 1].into_iter().filter(|x| *x != k).collect();
+                    let (x, y) = (others[0], others[1]);
+                    let arr3: [[u16; 3]; 3] = [[x, k, k], [k, x, k], [k, k, x]];
+                    let arr4: [[u16; 4]; 6] = [[x, k, y, k], [k, x, k, y], [x, y, k, k], [k, k, x, y], [k, x, y, k], [x, k, k, y]];
+                    macro_rules! dup_case {
+                        ($ks:expr) => {{
+                            let ks = $ks;
+                            cx.here.op = format!("get_disjoint_mut({ks:?}) - key {k} requested twice");
+                            cx.evaluations += 1;
+                            cases += 1;
+                            let (mut m, md) = build_map::<C>(f, o);
+                            let present = md.contains_key(&k);
+                            let refs = ks.each_ref();
+                            let r = catch_unwind(AssertUnwindSafe(|| m.get_disjoint_mut(refs).map(|o| o.map(|v| *v))));
+                            match r {
+                                Err(_) => {}
+                                Ok(got) => {
+                                    cx.check(C13, !present, || format!("get_disjoint_mut({ks:?}) returned {got:?} although key {k} is present and was requested twice"));
+                                    let want = ks.map(|q| md.get(&q).copied());
+                                    cx.check(C13, got == want, || format!("get_disjoint_mut({ks:?}) returned {got:?}, get_mut gives {want:?}"));
+                                }
+                            }
+                            agree(cx, C13, &m, &md, "get_disjoint_mut with a repeated key");
+                        }};
+                    }
+                    for ks in arr3 {
+                        dup_case!(ks);
+                    }
+                    for ks in arr4 {
+                        dup_case!(ks);
+                    }
+                }
             }
             macro_rules! whole {
                 ($name:expr, $pm:expr, |$m:ident, $md:ident| $body:block) => {if (($pm) | C05) & cx.enabled != 0 {
@@ -519,6 +569,7 @@ fn main() {
     let mut rep = EngineReport::new("wide_mc", args.props());
     let big = !args.flag("small");
     let huge = args.flag("huge");
+    ALL_KEYS.store(args.flag("all-keys"), std::sync::atomic::Ordering::Relaxed);
     run_cap::<7, 8>(&mut rep);
     run_cap::<8, 9>(&mut rep);
     run_cap::<9, 8>(&mut rep);
